@@ -364,6 +364,12 @@ func (r *Runner) finishPut(op *pendingOp, reply string) {
 				fmt.Sprintf("put of object %d", op.obj))
 		}
 	}
+	if r.st.Cfg.Kind != "ac" {
+		if c := op.closed.Load(); c != 1 {
+			r.oracle("C04", "the source of an upload was not closed exactly once by the time the upload returned",
+				fmt.Sprintf("put of object %d answered %q: source closed %d times", op.obj, reply, c))
+		}
+	}
 	if reply != "ok" && op.sawVisible != "" {
 		r.oracle("C01", "an upload that failed was visible to reads or existence checks while it was in flight",
 			fmt.Sprintf("put of object %d answered %q; before that: %s", op.obj, reply, op.sawVisible))
@@ -869,6 +875,11 @@ func (r *Runner) startComp(id, parent, child int) {
 	op.newsAtStart, op.discardsAtStart = r.st.Alloc.News.Load(), r.discards.total()
 	r.pending[id] = op
 	go func() {
+		defer func() {
+			if p := recover(); p != nil {
+				r.ev <- event{op: id, done: true, reply: fmt.Sprintf("panic: %v", p)}
+			}
+		}()
 		kind, data := consume(r.st.BA.GetFromComposite(context.Background(), r.Digest(parent), childDigest, &gatedSlicer{r: r, op: op}))
 		r.ev <- event{op: id, done: true, reply: kind, data: data}
 	}()
@@ -981,6 +992,10 @@ func (r *Runner) stepComp(op *pendingOp) {
 func (r *Runner) wait() event {
 	select {
 	case e := <-r.ev:
+		if e.done && strings.HasPrefix(e.reply, "panic:") {
+			// a storage operation panicked in its own goroutine: same as a panic in this one
+			panic(e.reply)
+		}
 		return e
 	case <-time.After(20 * time.Second):
 		panic("deadlock: a storage operation neither finished nor reached a gate within 20s")
@@ -1046,6 +1061,9 @@ func RunCase(model *hx.Model, dr *discardReader, name string, script []string) (
 	defer func() {
 		if p := recover(); p != nil {
 			r.oracle("C01", "the store panicked", fmt.Sprintf("%v\n%s", p, debug.Stack()))
+			if r.corrupted {
+				r.oracle("C08", "the store stopped accepting uploads after a corruption was detected", fmt.Sprintf("a storage operation panicked: %v", p))
+			}
 			res = r
 		}
 	}()
